@@ -75,6 +75,9 @@ func (x *Exec) atCallAssertionsArgs(s *State, site ssa.Instruction, calleeName s
 		if !strings.Contains(calleeName, ac.Callee) {
 			continue
 		}
+		if ac.Site != "" && !strings.Contains(x.label(s, site), ac.Site) {
+			continue
+		}
 		env := x.specEnvFrame(s)
 		for i, a := range args {
 			env.lets[fmt.Sprintf("arg%d", i)] = a
@@ -105,6 +108,7 @@ func (x *Exec) callValue(s *State, site ssa.Instruction, cc *ssa.CallCommon, fv 
 	}
 	switch fn := f.Fn.(type) {
 	case *ssa.Builtin:
+		x.atCallAssertionsArgs(s, site, "builtin:"+fn.Name(), args)
 		k(s, x.builtin(s, site, fn, cc, args))
 		return
 	case *ssa.Function:
@@ -316,7 +320,7 @@ func (x *Exec) applyContract(s *State, site ssa.Instruction, fn *ssa.Function, c
 				continue
 			}
 			if g := strings.TrimSpace(a); strings.HasPrefix(g, "g_") {
-				s.ghost[g] = Var(g+"@"+tag, SInt)
+				s.ghost[g] = Var(g+"@"+tag, ghostSort(g))
 				s.writes["ghost:var:"+g] = writeRec{obj: x.fsMarker()}
 				continue
 			}
